@@ -50,7 +50,8 @@ def check(ctx):
         vt = V.tests(lambda t: src(t) == "p in vs")
         hdr = [n for n in V.cfg.nodes if n.kind == "for"]
         tw = [t for t in V.cfg.nodes if t.kind == "test" and isinstance(t.ast.test, ast.Call) and call_name(t.ast.test) == "tween2"
-              and [src(a) for a in t.ast.test.args] == ["p", "vs[i]", "vs[j]"]]
+              and len(t.ast.test.args) == 3 and [src(a) for a in t.ast.test.args[:2]] == ["p", "vs[i]"]
+              and src(V.sym(t.ast.test.args[2], t)).replace("len(vs)", "l") == "vs[(i + 1) % l]"]
         ok = bool(vt) and bool(hdr) and bool(tw) and V.dominated(hdr, vt)
         ok = ok and _framing.every_iteration_passes(V, hdr[0], tw)
         # nothing but the j computation between the header and the on-edge test
@@ -119,3 +120,28 @@ def check(ctx):
     ctx.check(ok, "T9-tween", tw2, "tween2: collinear (trip == 0) and 0 <= a.b <= b.b on every path that answers True",
               "testing the extent on one coordinate only makes every point collinear with a vertical side count as on that side: "
               "outside points are reported inside / on the boundary")
+    # the predicates are functions of their arguments alone: nothing in the module remembers a previous call
+    ctx.rule("T4-pure", "no function of aid.vectoring writes module-level state (caches keyed by id(), counters, ..)")
+    m = ctx.repo.mod("aid.vectoring")
+    mod_names = {t.id for st in m.tree.body if isinstance(st, (ast.Assign, ast.AugAssign, ast.AnnAssign))
+                 for t in (st.targets if isinstance(st, ast.Assign) else [st.target]) if isinstance(t, ast.Name)}
+    MUT = {"append", "extend", "insert", "pop", "remove", "clear", "update", "setdefault", "add", "discard", "popitem", "__setitem__"}
+    nfun = 0
+    for f in [x for x in m.tree.body if isinstance(x, ast.FunctionDef)]:
+        nfun += 1
+        local = {a.arg for a in f.args.args + f.args.kwonlyargs} | {x.id for x in ast.walk(f) if isinstance(x, ast.Name) and isinstance(x.ctx, ast.Store)}
+        gl = {n_ for x in ast.walk(f) if isinstance(x, (ast.Global, ast.Nonlocal)) for n_ in x.names}
+        shared = (mod_names - local) | gl
+        bad = []
+        for x in ast.walk(f):
+            if isinstance(x, ast.Name) and isinstance(x.ctx, (ast.Store, ast.Del)) and x.id in gl:
+                bad.append("global %s rebound" % x.id)
+            elif isinstance(x, ast.Subscript) and isinstance(x.ctx, (ast.Store, ast.Del)) and isinstance(x.value, ast.Name) and x.value.id in shared:
+                bad.append("%s[..] written" % x.value.id)
+            elif isinstance(x, ast.Call) and isinstance(x.func, ast.Attribute) and x.func.attr in MUT and isinstance(x.func.value, ast.Name) \
+                    and x.func.value.id in shared:
+                bad.append(src(x)[:50])
+        ctx.check(not bad, "T4-pure", f, "%s keeps no state between calls%s" % (f.name, (": " + bad[0]) if bad else ""),
+                  "a result remembered from an earlier call (e.g. a bounding box cached under id(vs)) is reused for a different "
+                  "polygon with the same identity: the same point and polygon classify differently depending on call history")
+    ctx.floor("T4-pure:functions", nfun, 15)
